@@ -163,3 +163,161 @@ Example C12_example_defective :
   defective [] = true /\ defective [[]; []] = true /\
   defective [[Fin 1; Fin 2]; [Fin 2; Fin (9 # 2)]] = false.
 Proof. vm_compute. repeat split; reflexivity. Qed.
+
+(* ==================================================================================== *)
+(** * END TO END: the z-score block computed from a tabulated survey
+      (Proofs/ComposeBase.v, Proofs/ComposeZscore.v)
+
+   Above, count and bases of a cell are free rationals.  Below the whole pipeline runs on one
+   survey S (Spec/Survey.v): [s_zscores S tv vr kr mr vc kc mc k] is Model/Zscore.v::zscores_block
+   applied to the count block and the table / row / column base blocks that Model/CubeCounts.v
+   extracts from [tabulate S] for partition k of a categorical / multiple-response x categorical /
+   multiple-response cube (2-D: tv = None) -- [t_counts], [t_tb], [t_rb], [t_cb].  The four numbers
+   of a cell are weighted respondent counts (Props/C03.v::C03_survey_numbers):
+       c = w_cell (row i and column j)          r = w_rowbase (row i, eligible for column j)
+       k = w_colbase (eligible for row i, column j)      t = w_tabbase (eligible for both). *)
+From CC Require Import Spec.Survey Model.CubeCounts Proofs.CubeCountsProofs
+     Proofs.ComposeBase Proofs.ComposeZscore.
+
+(* every cell's statistic is a function of its four respondent counts *)
+Theorem C12_survey_z_cell S tv vr kr mr vc kc mc k i j :
+  t_ok tv -> cat_or_mr kr -> cat_or_mr kc -> k < t_n tv -> i < nval mr -> j < nval mc ->
+  z_zabs (mnth (t_counts S tv vr kr mr vc kc mc k) i j) (mnth (t_rb S tv vr kr mr vc kc mc k) i j)
+         (mnth (t_cb S tv vr kr mr vc kc mc k) i j) (mnth (t_tb S tv vr kr mr vc kc mc k) i j)
+  =x= z_zabs (Fin (w_cell tv k vr kr mr vc kc mc S i j)) (Fin (w_rowbase tv k vr kr mr vc kc mc S i j))
+             (Fin (w_colbase tv k vr kr mr vc kc mc S i j)) (Fin (w_tabbase tv k vr kr mr vc kc mc S i j)).
+Proof. exact (fun Ht Hr Hc Hk => z_cell_survey S tv vr kr mr vc kc mc k Ht Hr Hc Hk i j). Qed.
+Print Assumptions C12_survey_z_cell.
+
+(* z_formula on the model's block: a table that is not defective and passes the all-equal
+   guards, a cell strictly inside (0 < r < t, 0 < k < t) *)
+Theorem C12_survey_z_formula S tv vr kr mr vc kc mc k i j :
+  t_ok tv -> cat_or_mr kr -> cat_or_mr kc -> k < t_n tv ->
+  defective (t_counts S tv vr kr mr vc kc mc k) = false ->
+  mall_eq (t_tb S tv vr kr mr vc kc mc k) (t_rb S tv vr kr mr vc kc mc k) = false ->
+  mall_eq (t_tb S tv vr kr mr vc kc mc k) (t_cb S tv vr kr mr vc kc mc k) = false ->
+  i < nval mr -> j < nval mc ->
+  let c := w_cell tv k vr kr mr vc kc mc S i j in
+  let r := w_rowbase tv k vr kr mr vc kc mc S i j in
+  let kk := w_colbase tv k vr kr mr vc kc mc S i j in
+  let t := w_tabbase tv k vr kr mr vc kc mc S i j in
+  (0 < r)%Q -> (r < t)%Q -> (0 < kk)%Q -> (kk < t)%Q ->
+  let e := (r * kk / t)%Q in
+  mnth (s_zscores S tv vr kr mr vc kc mc k) i j =x=
+  Fin ((c - e) * Qabs (c - e) / (e * (1 - r / t) * (1 - kk / t)))%Q.
+Proof. exact (fun Ht Hr Hc Hk => z_formula_survey S tv vr kr mr vc kc mc k Ht Hr Hc Hk i j). Qed.
+Print Assumptions C12_survey_z_formula.
+
+Theorem C12_survey_z_sign S tv vr kr mr vc kc mc k i j :
+  t_ok tv -> cat_or_mr kr -> cat_or_mr kc -> k < t_n tv ->
+  defective (t_counts S tv vr kr mr vc kc mc k) = false ->
+  mall_eq (t_tb S tv vr kr mr vc kc mc k) (t_rb S tv vr kr mr vc kc mc k) = false ->
+  mall_eq (t_tb S tv vr kr mr vc kc mc k) (t_cb S tv vr kr mr vc kc mc k) = false ->
+  i < nval mr -> j < nval mc ->
+  let c := w_cell tv k vr kr mr vc kc mc S i j in
+  let r := w_rowbase tv k vr kr mr vc kc mc S i j in
+  let kk := w_colbase tv k vr kr mr vc kc mc S i j in
+  let t := w_tabbase tv k vr kr mr vc kc mc S i j in
+  (0 < r)%Q -> (r < t)%Q -> (0 < kk)%Q -> (kk < t)%Q ->
+  let e := (r * kk / t)%Q in
+  exists z2, mnth (s_zscores S tv vr kr mr vc kc mc k) i j = Fin z2 /\
+    ((0 < z2)%Q <-> (e < c)%Q) /\ ((z2 < 0)%Q <-> (c < e)%Q) /\ ((z2 == 0)%Q <-> (c == e)%Q).
+Proof. exact (fun Ht Hr Hc Hk => z_sign_survey S tv vr kr mr vc kc mc k Ht Hr Hc Hk i j). Qed.
+Print Assumptions C12_survey_z_sign.
+
+(* DERIVED from the survey (non-negative weights): 0 <= r <= t and 0 <= k <= t, so every cell is
+   either strictly inside -- the hypotheses of the two theorems above -- or on the boundary where
+   the variance is 0 (C12_zero_variance); the code's variance is never negative, so the NaN of
+   np.sqrt(negative) cannot occur *)
+Theorem C12_survey_interior_or_boundary S tv vr kr mr vc kc mc k i j : wf_survey S ->
+  let r := w_rowbase tv k vr kr mr vc kc mc S i j in
+  let kk := w_colbase tv k vr kr mr vc kc mc S i j in
+  let t := w_tabbase tv k vr kr mr vc kc mc S i j in
+  ((0 < r)%Q /\ (r < t)%Q /\ (0 < kk)%Q /\ (kk < t)%Q)
+  \/ (r == 0)%Q \/ (r == t)%Q \/ (kk == 0)%Q \/ (kk == t)%Q.
+Proof. exact (fun Hwf => z_interior_or_boundary S tv vr kr mr vc kc mc k Hwf i j). Qed.
+Print Assumptions C12_survey_interior_or_boundary.
+
+Theorem C12_survey_variance_nonneg S tv vr kr mr vc kc mc k i j : wf_survey S ->
+  ~ (w_tabbase tv k vr kr mr vc kc mc S i j == 0)%Q ->
+  (0 <= qvar (w_rowbase tv k vr kr mr vc kc mc S i j) (w_colbase tv k vr kr mr vc kc mc S i j)
+             (w_tabbase tv k vr kr mr vc kc mc S i j))%Q.
+Proof. exact (fun Hwf => z_variance_nonneg S tv vr kr mr vc kc mc k Hwf i j). Qed.
+Print Assumptions C12_survey_variance_nonneg.
+
+(* 2 x 2 CATEGORICAL tables (two valid rows, two valid columns; any missing categories, 2-D or a
+   partition of a 3-D cube) with non-zero margins: with a, b, c, d the weighted numbers of
+   respondents in the four cells, z^2 of EVERY cell of the model's block is Pearson's chi-square
+   N (ad - bc)^2 / (R1 R2 K1 K2); the guards of the code are derived, the table is defective
+   exactly when ad = bc -- then every cell is NaN and chi-square is 0 *)
+Theorem C12_survey_2x2_chi2 S tv vr vc mr mc k :
+  t_ok tv -> k < t_n tv -> nval mr = 2 -> nval mc = 2 ->
+  let a := w_cell tv k vr KCat mr vc KCat mc S 0 0 in
+  let b := w_cell tv k vr KCat mr vc KCat mc S 0 1 in
+  let c := w_cell tv k vr KCat mr vc KCat mc S 1 0 in
+  let d := w_cell tv k vr KCat mr vc KCat mc S 1 1 in
+  (0 < a + b)%Q -> (0 < c + d)%Q -> (0 < a + c)%Q -> (0 < b + d)%Q ->
+  forall i j, i < 2 -> j < 2 ->
+  (~ (a * d == b * c)%Q ->
+     xabs (mnth (s_zscores S tv vr KCat mr vc KCat mc k) i j) =x= Fin (chi2_of a b c d)) /\
+  ((a * d == b * c)%Q ->
+     mnth (s_zscores S tv vr KCat mr vc KCat mc k) i j = NaN /\ (chi2_of a b c d == 0)%Q).
+Proof.
+  exact (fun Ht Hk Hnr Hnc M1 M2 M3 M4 i j Hi Hj =>
+    conj (chi2_block_survey S tv vr vc mr mc k Ht Hk Hnr Hnc M1 M2 M3 M4 i j Hi Hj)
+         (chi2_degenerate_survey S tv vr vc mr mc k Ht Hk Hnr Hnc i j Hi Hj)).
+Qed.
+Print Assumptions C12_survey_2x2_chi2.
+
+Theorem C12_survey_chi2_def a b c d :
+  chi2_of a b c d =
+  ((a + b + c + d) * ((a * d - b * c) * (a * d - b * c)) / ((a + b) * (c + d) * (a + c) * (b + d)))%Q.
+Proof. exact eq_refl. Qed.
+Print Assumptions C12_survey_chi2_def.
+
+(* the same on the cell level without any block hypothesis *)
+Theorem C12_survey_2x2_chi2_cells S tv vr vc mr mc k :
+  t_ok tv -> k < t_n tv -> nval mr = 2 -> nval mc = 2 ->
+  let a := w_cell tv k vr KCat mr vc KCat mc S 0 0 in
+  let b := w_cell tv k vr KCat mr vc KCat mc S 0 1 in
+  let c := w_cell tv k vr KCat mr vc KCat mc S 1 0 in
+  let d := w_cell tv k vr KCat mr vc KCat mc S 1 1 in
+  (0 < a + b)%Q -> (0 < c + d)%Q -> (0 < a + c)%Q -> (0 < b + d)%Q ->
+  forall i j, i < 2 -> j < 2 ->
+  z_sq (mnth (t_counts S tv vr KCat mr vc KCat mc k) i j) (mnth (t_rb S tv vr KCat mr vc KCat mc k) i j)
+       (mnth (t_cb S tv vr KCat mr vc KCat mc k) i j) (mnth (t_tb S tv vr KCat mr vc KCat mc k) i j)
+  =x= Fin (chi2_of a b c d).
+Proof. exact (chi2_cell_survey S tv vr vc mr mc k). Qed.
+Print Assumptions C12_survey_2x2_chi2_cells.
+
+(* Non-vacuity.  Six respondents with rational weights, two categorical variables with a MISSING
+   category each (one respondent answers it): the 2 x 2 table of valid answers is
+   3 1 / 2 4 -- e = 4*5/10 = 2 for cell (0,0), z|z| = 5/3 = chi-square; a second survey whose
+   table 1 2 / 2 4 is proportional (ad = bc): NaN *)
+Example C12_survey_example :
+  let S := [ mkResp [ACat 0; ACat 0] 3; mkResp [ACat 0; ACat 2] (1 # 2); mkResp [ACat 0; ACat 2] (1 # 2);
+             mkResp [ACat 2; ACat 0] 2; mkResp [ACat 2; ACat 2] 4; mkResp [ACat 1; ACat 0] 7;
+             mkResp [ACat 0; ACat 1] 9 ] in
+  let S0 := [ mkResp [ACat 0; ACat 0] 1; mkResp [ACat 0; ACat 2] 2;
+              mkResp [ACat 2; ACat 0] 2; mkResp [ACat 2; ACat 2] 4 ] in
+  let ms := [false; true; false] in
+  t_ok None /\ 0 < t_n None /\ nval ms = 2 /\ wf_survey S /\
+  let a := w_cell None 0 0 KCat ms 1 KCat ms S 0 0 in
+  let b := w_cell None 0 0 KCat ms 1 KCat ms S 0 1 in
+  let c := w_cell None 0 0 KCat ms 1 KCat ms S 1 0 in
+  let d := w_cell None 0 0 KCat ms 1 KCat ms S 1 1 in
+  (a == 3 /\ b == 1 /\ c == 2 /\ d == 4)%Q /\
+  (0 < a + b)%Q /\ (0 < c + d)%Q /\ (0 < a + c)%Q /\ (0 < b + d)%Q /\ ~ (a * d == b * c)%Q /\
+  defective (t_counts S None 0 KCat ms 1 KCat ms 0) = false /\
+  mall_eq (t_tb S None 0 KCat ms 1 KCat ms 0) (t_rb S None 0 KCat ms 1 KCat ms 0) = false /\
+  mall_eq (t_tb S None 0 KCat ms 1 KCat ms 0) (t_cb S None 0 KCat ms 1 KCat ms 0) = false /\
+  (0 < w_rowbase None 0 0 KCat ms 1 KCat ms S 0 0 < w_tabbase None 0 0 KCat ms 1 KCat ms S 0 0)%Q /\
+  (0 < w_colbase None 0 0 KCat ms 1 KCat ms S 0 0 < w_tabbase None 0 0 KCat ms 1 KCat ms S 0 0)%Q /\
+  map (map xred) (s_zscores S None 0 KCat ms 1 KCat ms 0)
+    = [[Fin (5 # 3); Fin (- 5 # 3)]; [Fin (- 5 # 3); Fin (5 # 3)]] /\
+  (chi2_of a b c d == 5 # 3)%Q /\
+  s_zscores S0 None 0 KCat ms 1 KCat ms 0 = [[NaN; NaN]; [NaN; NaN]].
+Proof.
+  cbv zeta. repeat split; try lia; try (repeat constructor; discriminate);
+    try (vm_compute; reflexivity); try (vm_compute; discriminate).
+Qed.
